@@ -247,3 +247,100 @@ Proof.
 Qed.
 
 End Uniform.
+
+(* ---------- the root: the law of the abs-sorted single sample is uniform on ModelsA ---------- *)
+
+Lemma cfg_eqb_eq a : forall b, cfg_eqb a b = true <-> a = b.
+Proof.
+  induction a as [|x a IH]; intros [|y b]; cbn [cfg_eqb]; try (split; [discriminate|congruence]).
+  - split; reflexivity.
+  - rewrite andb_true_iff, Z.eqb_eq, IH. split; [intros [-> ->]; reflexivity|intros H; inversion H; auto].
+Qed.
+
+Lemma mass_notin (D : list (cfg * Q)) m : ~ In m (map fst D) ->
+  filter (fun e => cfg_eqb (fst e) m) D = [].
+Proof.
+  induction D as [|[x q] D IH]; intros H; [reflexivity|]. cbn [filter fst].
+  destruct (cfg_eqb x m) eqn:Ex.
+  - apply cfg_eqb_eq in Ex. exfalso. apply H. left. exact Ex.
+  - apply IH. intros Hin. apply H. now right.
+Qed.
+
+Lemma mass_unique (D : list (cfg * Q)) (p : Q) m :
+  NoDup (map fst D) -> Forall (fun e => (snd e == p)%Q) D -> In m (map fst D) -> (mass D m == p)%Q.
+Proof.
+  unfold mass. induction D as [|[x q] D IH]; intros Hnd Hp Hin; [destruct Hin|].
+  cbn [map fst] in Hnd. inversion Hnd as [|? ? Hx Hnd']; subst.
+  inversion Hp as [|? ? Hq Hp']; subst. cbn [snd] in Hq.
+  cbn [filter fst]. destruct (cfg_eqb x m) eqn:Ex.
+  - apply cfg_eqb_eq in Ex. subst x. rewrite (mass_notin D m Hx). cbn [map snd qsum fold_right].
+    rewrite Hq. ring.
+  - destruct Hin as [Hin|Hin]; [cbn [fst] in Hin; subst x|now apply IH].
+    assert (cfg_eqb m m = true) by now apply cfg_eqb_eq. congruence.
+Qed.
+
+Lemma sort_abs_canon_list n V X L :
+  range_set n V -> Forall2 (@Permutation Z) X L -> (forall c, In c L -> Good c V) ->
+  map sort_abs X = map (canon_cfg n) L.
+Proof.
+  intros HV HF. induction HF as [|x c X L Hxc HF IH]; intros HG; [reflexivity|].
+  cbn [map]. f_equal.
+  - apply (sort_abs_canon n x c V); [apply HG; now left|exact HV|exact Hxc].
+  - apply IH. intros c0 Hc0. apply HG. now right.
+Qed.
+
+Section Root.
+Variables (C : circuit) (n : nat) (A : cfg) (ts : list Z).
+Hypothesis HWF : WF C n.
+Hypothesis HA : in_range n A.
+Hypothesis Hts : temps_ok A C ts.
+Hypothesis Hnt : forall i cs c, (i < length C)%nat -> nth i C FalseN = Or cs -> In c cs ->
+                                nth c C FalseN <> TrueN.
+Hypothesis Hsat : 0 < MCA C n A.
+Notation d := (build C n).
+
+Lemma ModelsA_NoDup : NoDup (ModelsA C n A).
+Proof. unfold ModelsA, Models. apply NoDup_filter, NoDup_filter, all_cfgs_NoDup. Qed.
+
+Theorem law1_uniform :
+  Permutation (map fst (law1 d ts)) (ModelsA C n A) /\
+  Forall (fun e => (snd e == 1 / inject_Z (MCA C n A))%Q) (law1 d ts).
+Proof.
+  pose proof (wf_idx C n HWF) as Hok. pose proof (root_lt C (wf_nonempty C n HWF)) as Hrl.
+  pose proof (countsA_MCA C n A HWF HA) as Hc.
+  assert (Hnz : nth (root C) (countsA A C) 0 <> 0) by (rewrite Hc; lia).
+  destruct (joint1_uniform d A ts Hok Hts Hnt (root C) Hrl (length C) Hrl Hnz) as [[L [HF HP]] Hpr].
+  unfold law1. change (rootn d) with (root C). change (length (circ d)) with (length C).
+  split.
+  - rewrite map_map. cbn [fst].
+    rewrite <- (map_map e_out sort_abs). fold (outs (joint1 d ts (length C) (root C))).
+    pose proof (complete_range C n (wf_complete C n HWF)) as HV.
+    assert (HG : forall c, In c L -> Good c (last (varss C) [])).
+    { intros c Hc'. apply (Permutation_in _ HP) in Hc'. apply filter_In in Hc'. destruct Hc' as [Hc' _].
+      rewrite <- enum_root_nth in Hc'. now apply (root_good C n HWF). }
+    rewrite (sort_abs_canon_list n _ _ L HV HF HG).
+    rewrite (Permutation_map (canon_cfg n) HP).
+    unfold ModelsA. rewrite <- (Permutation_filter (contains_all A) _ _ (models_enum_perm C n HWF)).
+    rewrite filter_map_comm, <- enum_root_nth.
+    erewrite (filter_ext_in (fun x => contains_all A (canon_cfg n x))); [reflexivity|].
+    intros c Hc'. apply (contains_all_canon n c (last (varss C) []) A); [|exact HV|exact HA].
+    now apply (root_good C n HWF).
+  - apply Forall_forall. intros e He. apply in_map_iff in He. destruct He as [b [<- Hb]]. cbn [snd].
+    unfold all_pr in Hpr. rewrite Forall_forall in Hpr. rewrite (Hpr b Hb).
+    change (circ d) with C. rewrite Hc. reflexivity.
+Qed.
+
+(* every model that contains A is drawn with probability exactly 1 / MCA, everything else with 0 *)
+Theorem law1_mass m :
+  (In m (ModelsA C n A) -> (mass (law1 d ts) m == 1 / inject_Z (MCA C n A))%Q) /\
+  (~ In m (ModelsA C n A) -> (mass (law1 d ts) m == 0)%Q).
+Proof.
+  destruct law1_uniform as [HP Hpr]. split; intros Hm.
+  - apply mass_unique; [|exact Hpr|].
+    + apply (Permutation_NoDup (Permutation_sym HP)). apply ModelsA_NoDup.
+    + apply (Permutation_in _ (Permutation_sym HP)). exact Hm.
+  - unfold mass. rewrite mass_notin; [reflexivity|].
+    intros Hin. apply Hm. apply (Permutation_in _ HP). exact Hin.
+Qed.
+
+End Root.
